@@ -19,13 +19,13 @@ def run(ctx):
     for e in json.load(open(os.path.join(VERIF, "findings", "C08.entries.json"))):
         if e["property"] == ctx.prop and e["signature"] not in have:
             ctx.known.append(e)
-    ctx.lean_obligations("Fv.Props.C08", THEOREMS + C04_TOPIC, extra_modules=("Fv.Props.C04Topic",))
+    ctx.lean_obligations("Fv.Props.C08", THEOREMS + C04_TOPIC, extra_modules=("Fv.Props.C08B", "Fv.Props.C04Topic"))
     drv = ctx.lean_exe("fvdrv_topic")
     h = ctx.cargo_build("topic", "topich")
     ctx.assumptions += [
         "papaya::HashMap (get / get_or_insert_with / iter) and internal::left_right (modify = apply, later readers see it) are represented by their sequential contracts: one list of (topic, mailbox) pairs in push order",
         "Weak::upgrade of a mailbox succeeds iff the owning receiver handle has not been dropped; of the dispatcher iff some sender handle has not been dropped",
-        "interleavings: the theorems quantify over all SEQUENCES of API calls (each call atomic); steps inside one call (snapshot of the subscriber list, per-mailbox lock) are tied to the implementation only at API granularity — the real-thread stress histories are judged by the monitors, not replayed on the model",
+        "interleavings: model Q quantifies over all SEQUENCES of atomic API calls and is the one replayed against the implementation; model B (Fv.Chan.TopicB) splits send into its snapshot and one step per visited mailbox and quantifies over all schedules, but B's step structure (snapshot instant, one mailbox lock per visit, every other call atomic) is tied to the code only by reading and by the real-thread stress monitors, which check exactly B's theorems (per-publisher order, at most once, subscribed at an instant of the publish call, nothing owed is lost when never full) — not by replay",
         "waiter registration / wake-ups of blocked or pending receivers are not modelled here (C05/C06); a blocking recv() that would park is reported as wouldblock and never executed",
         "receiver_count is a 64-bit usize with wrapping fetch_add/fetch_sub",
         "message payloads are opaque (never inspected by the code); topics and values are small integers (String keys are formatted integers)",
